@@ -10,7 +10,7 @@ export GOFLAGS=-mod=mod GOPROXY=off GOSUMDB=off GOTOOLCHAIN=local
 dst=/verif/seeded/$sid
 mkdir -p "$dst"
 cp "$src/patch.diff" "$dst/patch.diff"
-cp "$src"/zz_seed_test.go "$dst/" 2>/dev/null
+for f in "$src"/zz_seed*_test.go; do cp "$f" "$dst/zz_seed_test.go"; done 2>/dev/null
 cp "$src/NOTE.md" "$dst/NOTE.md" 2>/dev/null
 wt=$(mktemp -d /tmp/seedchk.XXXXXX); rmdir "$wt"
 git -C /repo worktree add --detach "$wt" HEAD -q || exit 3
